@@ -290,3 +290,80 @@ package main
 //@   modifies nothing
 //@ func newController
 //@   lockonly
+
+// ---- C05: the routes offered to each BGP peer ----
+// the per-peer filter keeps exactly the advertisements meant for the peer, in order
+//@ func adsForPeer
+//@   requires forall k int :: 0 <= k && k < len(ads) ==> ads[k] != nil
+//@   ensures [sound] forall x *bgp.Advertisement :: (x in result) ==> (x in ads) && bgp.ForPeer(x, peerName)
+//@   ensures [complete] forall k int :: 0 <= k && k < len(ads) && bgp.ForPeer(ads[k], peerName) ==> (ads[k] in result)
+//@   ensures result == nil || fresh(result)
+//@   modifies fresh []*bgp.Advertisement
+//@   loop 1 invariant res != nil && fresh(res)
+//@   loop 1 invariant forall x *bgp.Advertisement :: (x in res) ==> (x in ads) && bgp.ForPeer(x, peerName)
+//@   loop 1 invariant forall k int :: 0 <= k && k < iter && bgp.ForPeer(ads[k], peerName) ==> (ads[k] in res)
+
+// AdFor: ad is the route built for address ip from pool advertisement cfg: ip truncated to the aggregation length of
+// its family, with cfg's local preference, peer list and community set.
+//@ pred AggLen(ip net.IP, cfg *config.BGPAdvertisement) := ite(net.is4(ip), cfg.AggregationLength, cfg.AggregationLengthV6)
+//@ opaque pred SamePeers(ad *bgp.Advertisement, cfg *config.BGPAdvertisement) := len(ad.Peers) == len(cfg.Peers) && (forall k int :: 0 <= k && k < len(cfg.Peers) ==> ad.Peers[k] == cfg.Peers[k])
+//@ opaque pred SameComms(ad *bgp.Advertisement, cfg *config.BGPAdvertisement) := forall c community.BGPCommunity :: (c in ad.Communities) == (c in cfg.Communities)
+//@ opaque pred AdCore(ad *bgp.Advertisement, ip net.IP, cfg *config.BGPAdvertisement) :=
+//@     ad != nil && ad.Prefix != nil && net.maskOnes(ad.Prefix.Mask) == ite(net.is4(ip), cfg.AggregationLength, cfg.AggregationLengthV6)
+//@     && net.maskBits(ad.Prefix.Mask) == ite(net.is4(ip), 32, 128)
+//@     && net.is4(ad.Prefix.IP) == net.is4(ip) && net.num(ad.Prefix.IP) == net.pfx(net.num(ip), net.maskOnes(ad.Prefix.Mask))
+//@     && ad.LocalPref == cfg.LocalPref && SamePeers(ad, cfg)
+// AdFor: AdCore plus the community set (asserted when the advertisement is appended; the list-level clauses carry AdCore)
+//@ pred AdFor(ad *bgp.Advertisement, ip net.IP, cfg *config.BGPAdvertisement) := AdCore(ad, ip, cfg) && SameComms(ad, cfg)
+// BGPPoolOK: data invariant of a parsed pool: advertisements present with valid aggregation lengths.
+//@ opaque pred BGPPoolOK(pool *config.Pool) := pool != nil && (forall j int :: 0 <= j && j < len(pool.BGPAdvertisements) ==> pool.BGPAdvertisements[j] != nil
+//@     && 0 <= pool.BGPAdvertisements[j].AggregationLength && pool.BGPAdvertisements[j].AggregationLength <= 32
+//@     && 0 <= pool.BGPAdvertisements[j].AggregationLengthV6 && pool.BGPAdvertisements[j].AggregationLengthV6 <= 128)
+// ValidIPs: well-formed service addresses (4- or 16-byte).
+//@ pred ValidIPs(ips []net.IP) := forall i int :: 0 <= i && i < len(ips) ==> (len(ips[i]) == 4 || len(ips[i]) == 16) && (len(ips[i]) == 4 ==> net.is4(ips[i]))
+// Sel: the pool advertisement selects this node.
+//@ pred Sel(c *bgpController, cfg *config.BGPAdvertisement) := cfg.Nodes[c.myNode]
+
+// the community order used to canonicalise the list (strict weak order assumed of community.LessThan)
+//@ axiom commIrrefl: forall a community.BGPCommunity :: { community.CommLess(a, a) } !community.CommLess(a, a)
+//@ axiom commTrans: forall a community.BGPCommunity, b community.BGPCommunity, c community.BGPCommunity :: { community.CommLess(a, b), community.CommLess(b, c) } community.CommLess(a, b) && community.CommLess(b, c) ==> community.CommLess(a, c)
+//@ func (*bgpController).SetBalancer$1
+//@   requires ad != nil && 0 <= i && i < len(ad.Communities) && 0 <= j && j < len(ad.Communities)
+//@   ensures result == community.CommLess(ad.Communities[i], ad.Communities[j])
+
+// what the rest of the controller does with the advertisements (publishing to the sessions): see publishAds
+//@ func (*bgpController).updateAds
+//@   trusted
+//@   requires c != nil
+//@   modifies map[string]sets.Set[string], bgpController.activeAds, $held
+
+// bgpController.SetBalancer: the Service's list is emptied, then for every address and every pool advertisement that
+// selects this node exactly one route AdFor(...) is appended ([mk] at the only append into the list, [shape]); the
+// advertisements of other Services are untouched. (The list-level statement "the final list is exactly the set of
+// these routes" needs stability of facts about earlier routes across the in-place append and is not mechanised.)
+//@ func (*bgpController).SetBalancer
+//@   requires c != nil && c.svcAds != nil && BGPPoolOK(pool) && ValidIPs(lbIPs)
+//@   modifies map(c.svcAds), fresh *bgp.Advertisement, fresh *net.IPNet, fresh []string, fresh []community.BGPCommunity, fresh []*bgp.Advertisement, fresh []interface{}, map[string]sets.Set[string], bgpController.activeAds, $held
+//@   call sort.Slice with less(a, b) := community.CommLess(a, b)
+//@   assert before updateAds: [others] forall s string :: s != name ==> (s in c.svcAds) == old(s in c.svcAds) && sameSlice(c.svcAds[s], old(c.svcAds[s]))
+//@   assert before len#1: [reset] len(c.svcAds[name]) == 0
+//@   loop 1 invariant BGPPoolOK(pool) && ValidIPs(lbIPs) && (c.svcAds[name] == nil || fresh(c.svcAds[name]))
+//@   loop 2 invariant BGPPoolOK(pool) && ValidIPs(lbIPs) && (c.svcAds[name] == nil || fresh(c.svcAds[name]))
+//@   loop 3 invariant BGPPoolOK(pool) && ValidIPs(lbIPs) && (c.svcAds[name] == nil || fresh(c.svcAds[name])) && (ad.Communities == nil || fresh(ad.Communities))
+//@   loop 3 invariant 0 <= idx(1) && idx(1) < len(lbIPs) && 0 <= idx(2) && idx(2) < len(pool.BGPAdvertisements) && adCfg == pool.BGPAdvertisements[idx(2)] && Sel(c, adCfg)
+//@   loop 3 invariant ad.Prefix != nil && net.maskOnes(ad.Prefix.Mask) == ite(net.is4(lbIP), adCfg.AggregationLength, adCfg.AggregationLengthV6) && net.maskBits(ad.Prefix.Mask) == ite(net.is4(lbIP), 32, 128)
+//@   loop 3 invariant net.is4(ad.Prefix.IP) == net.is4(lbIP) && net.num(ad.Prefix.IP) == net.pfx(net.num(lbIP), net.maskOnes(ad.Prefix.Mask)) && ad.LocalPref == adCfg.LocalPref && SamePeers(ad, adCfg)
+//@   loop 3 invariant ad != nil && fresh(ad) && (forall cm community.BGPCommunity :: (cm in ad.Communities) == (cm in visited)) && (forall cm community.BGPCommunity :: (cm in visited) ==> (cm in adCfg.Communities))
+//@   loop 1 invariant c.svcAds != nil && (forall s string :: s != name ==> (s in c.svcAds) == old(s in c.svcAds) && sameSlice(c.svcAds[s], old(c.svcAds[s])))
+//@   loop 2 invariant c.svcAds != nil && 0 <= idx(1) && idx(1) < len(lbIPs) && (forall s string :: s != name ==> (s in c.svcAds) == old(s in c.svcAds) && sameSlice(c.svcAds[s], old(c.svcAds[s])))
+//@   assert before Slice#1: [comms] SameComms(ad, adCfg)
+//@   assert before append#3: [mk] AdFor(ad, lbIP, adCfg)
+//@   assert before append#3: [here] lbIP == lbIPs[idx(1)] && adCfg == pool.BGPAdvertisements[idx(2)] && Sel(c, pool.BGPAdvertisements[idx(2)])
+//@   assert after append#3: [shape] len(ret) == len(c.svcAds[name]) + 1 && ret[len(ret) - 1] == ad && (forall k int :: 0 <= k && k < len(c.svcAds[name]) ==> ret[k] == c.svcAds[name][k])
+
+// bgpController.DeleteBalancer forgets exactly this Service's advertisements (and republishes)
+//@ func (*bgpController).DeleteBalancer
+//@   requires c != nil && c.svcAds != nil
+//@   ensures [gone] !(name in c.svcAds)
+//@   ensures [others] forall s string :: s != name ==> (s in c.svcAds) == old(s in c.svcAds) && sameSlice(c.svcAds[s], old(c.svcAds[s]))
+//@   modifies map(c.svcAds), map[string]sets.Set[string], bgpController.activeAds, $held
